@@ -595,13 +595,15 @@ func c02PathWriters(w *World, r *Report) {
 	for _, f := range allFuncs(sp) {
 		// closures are named after the function that builds them, helpers
 		// used by one function only after that function
-		own := w.OwnerOf(f)
-		fname := own.Name()
-		if recv := own.Signature.Recv(); recv != nil {
-			fname = namedStructOf(recv.Type()) + "." + fname
-		}
+		names := w.OwnerNames(f)
 		report := func(what string, pos token.Pos) {
-			key := fname + " → " + what
+			key := names[0] + " → " + what
+			for _, n := range names {
+				if _, ok := c02PathWriterAllowed[n+" → "+what]; ok {
+					key = n + " → " + what
+					break
+				}
+			}
 			if seen[key] {
 				return
 			}
@@ -919,7 +921,7 @@ func c02RootInstruction(w *World, r *Report, cpo *types.Func) {
 			continue
 		}
 		n++
-		inst := "SetIsRootBased call in " + w.OwnerOf(f).Name()
+		inst := "SetIsRootBased call in " + w.OwnerChain(f)[0].Name()
 		// where does f become an instruction?
 		why := ""
 		if !isTrue {
